@@ -1,6 +1,7 @@
 (* Props/C05.v — rawdb: a crash never damages untouched flushed regions or the file layout.
    Statements only. *)
-From Anydb Require Import Common.Base Gen.Consts Rawdb.AMap Rawdb.Alloc Rawdb.Crash Rawdb.CrashFacts.
+From Anydb Require Import Common.Base Gen.Consts Rawdb.AMap Rawdb.Alloc Rawdb.Crash Rawdb.CrashFacts
+  Rawdb.CrashInv Rawdb.CrashSound Rawdb.CrashReopen Rawdb.CrashLibDefs Rawdb.CrashLib Rawdb.CrashExamples.
 
 (* FULL statement (target): a trace accepted by the monitor is safe at every crash point (= every
    prefix) for every choice of page versions: the recovered regions are valid, pairwise disjoint
@@ -28,3 +29,139 @@ Theorem C05_metasync_collapses_versions :
   forall m i, possible (fst (mon_step m CMetaSync)) i = [dur_of (fst (mon_step m CMetaSync)) i].
 Proof. exact possible_after_metasync. Qed.
 Print Assumptions C05_metasync_collapses_versions.
+
+(* OS mode, layout (invariant K1/K5 of Rawdb/CrashInv.v): at every crash point of an accepted
+   trace, for every choice of slot versions, the recovered regions are valid, pairwise disjoint
+   and inside the data file *)
+Theorem C05_os_layout :
+  forall t1 t2, snd (mon_run mon_init (t1 ++ t2)) = true ->
+    let m := fst (mon_run mon_init t1) in
+    forall sigma, os_slots m sigma ->
+      pairwise_disjoint (recovered m sigma) /\ inside_file m (recovered m sigma).
+Proof. exact C05_os_layout_proof. Qed.
+Print Assumptions C05_os_layout.
+
+(* OS mode, contents: a slot that was live at the last completed flush and whose region nobody
+   addressed since has exactly one possible version (the flushed one) and every possible data
+   image holds the flushed bytes on its content *)
+Theorem C05_os_untouched :
+  forall t1 t2, snd (mon_run mon_init (t1 ++ t2)) = true ->
+    let m := fst (mon_run mon_init t1) in
+    forall fl fmem, m_flushed m = Some (fl, fmem) ->
+    forall i w, assoc_get i fl = Some w -> mem_in (sr_id w) (m_touched m) = false ->
+      possible m i = [Some w]
+      /\ forall img, os_data m img -> forall a, sr_start w <= a < sr_start w + sr_len w -> img a = fmem a.
+Proof. exact C05_os_untouched_proof. Qed.
+Print Assumptions C05_os_untouched.
+
+(* the FULL statement *)
+Theorem C05_os : C05_os_full.
+Proof. exact C05_os_proof. Qed.
+Print Assumptions C05_os.
+
+(* recovery: on every crash image of the regions file (first n slots under the version choice
+   sigma) the live slots that Regions::fill keeps are pairwise disjoint, hence Layout::from
+   (`gaps`) never underflows and Alloc.reopen does not panic, whatever the rest of the state *)
+Theorem C05_os_reopen_no_panic :
+  forall t1 t2, snd (mon_run mon_init (t1 ++ t2)) = true ->
+    let m := fst (mon_run mon_init t1) in
+    forall sigma, os_slots m sigma ->
+    forall n, live_disjoint (fill_slots (rf_image n sigma))
+              /\ forall s, rfile s = rf_image n sigma -> reopen s <> APanic.
+Proof. exact C05_os_reopen_proof. Qed.
+Print Assumptions C05_os_reopen_no_panic.
+
+Theorem C05_layout_from_total :
+  forall sl s0, live_disjoint sl -> exists s1, gaps sl (s2r_of sl 0 []) 0 s0 = Some s1.
+Proof. exact gaps_total. Qed.
+Print Assumptions C05_layout_from_total.
+
+(* LIB mode (images: Rawdb/CrashLibDefs.v), FULL statement C05_lib_full, restated:
+   tc ends with the last completed sync pair; no metadata sync completed since; the crash falls
+   at point p (outside a sync / inside the data sync / inside the metadata sync) after t1.  For a
+   slot whose durable content was not overwritten in place since the pair, every image holds
+   (A) the metadata of the pair with the bytes of the pair, or (B) inside a metadata sync only, the
+   volatile metadata with the volatile bytes at the start of that sync. *)
+Theorem C05_lib :
+  forall t0 t1 p,
+    let tc := t0 ++ [CDataSync; CMetaSync] in
+    snd (mon_run mon_init (tc ++ t1 ++ lib_next p)) = true ->
+    no_metasync t1 = true ->
+    let m0 := fst (mon_run mon_init tc) in
+    let m := fst (mon_run mon_init (tc ++ t1)) in
+    forall i sigma img, lib_slots p m sigma -> lib_data p m img ->
+      not_overwritten (dur_of m0 i) t1 = true ->
+      (sigma i = dur_of m0 i /\ agree_on (sigma i) img (m_vmem m0))
+      \/ (p = LInMetaSync /\ sigma i = latest_of m i /\ agree_on (sigma i) img (m_vmem m)).
+Proof. exact C05_lib_proof. Qed.
+Print Assumptions C05_lib.
+
+(* every LIB image is an OS image, so C05_os (layout, untouched regions) and
+   C05_os_reopen_no_panic hold for LIB images too *)
+Theorem C05_lib_images_are_os_images :
+  forall t1 t2, snd (mon_run mon_init (t1 ++ t2)) = true ->
+    let m := fst (mon_run mon_init t1) in
+    forall p sigma img, lib_slots p m sigma -> lib_data p m img -> os_slots m sigma /\ os_data m img.
+Proof. exact lib_image_is_os_image_proof. Qed.
+Print Assumptions C05_lib_images_are_os_images.
+
+(* the same for ANY checkpoint t0 after which no metadata sync completed (e.g. the lone metadata
+   sync of a flush without dirty regions): the checkpoint pair is (durable metadata, durable
+   bytes) provided no data range pending at the checkpoint hits the content either *)
+Theorem C05_lib_general :
+  forall t0 t1 p,
+    snd (mon_run mon_init (t0 ++ t1 ++ lib_next p)) = true ->
+    no_metasync t1 = true ->
+    let m0 := fst (mon_run mon_init t0) in
+    let m := fst (mon_run mon_init (t0 ++ t1)) in
+    forall i sigma img, lib_slots p m sigma -> lib_data p m img ->
+      pdata_misses (dur_of m0 i) m0 = true ->
+      not_overwritten (dur_of m0 i) t1 = true ->
+      (sigma i = dur_of m0 i /\ agree_on (sigma i) img (m_dmem m0))
+      \/ (p = LInMetaSync /\ sigma i = latest_of m i /\ agree_on (sigma i) img (m_vmem m)).
+Proof. exact C05_lib_general_proof. Qed.
+Print Assumptions C05_lib_general.
+
+(* M5: what a completed metadata sync makes durable for a rewritten slot is the volatile pair *)
+Theorem C05_lib_commit_is_volatile_pair :
+  forall t, snd (mon_run mon_init (t ++ [CMetaSync])) = true ->
+    let m := fst (mon_run mon_init t) in
+    let m' := fst (mon_run mon_init (t ++ [CMetaSync])) in
+    forall i, In i (map fst (m_pend m)) ->
+      dur_of m' i = latest_of m i /\ agree_on (dur_of m' i) (m_dmem m') (m_vmem m).
+Proof. exact C05_lib_commit_proof. Qed.
+Print Assumptions C05_lib_commit_is_volatile_pair.
+
+Theorem C05_lib_commit_is_checkpoint :
+  forall t, snd (mon_run mon_init (t ++ [CMetaSync])) = true ->
+    let m := fst (mon_run mon_init t) in
+    let m' := fst (mon_run mon_init (t ++ [CMetaSync])) in
+    forall i, In i (map fst (m_pend m)) -> pdata_misses (dur_of m' i) m' = true.
+Proof. exact C05_lib_commit_misses_proof. Qed.
+Print Assumptions C05_lib_commit_is_checkpoint.
+
+(* M3/M4: a region nobody addresses (no operation names its id, its slot is not rewritten) is
+   never overwritten in place: the hypothesis `not_overwritten` of C05_lib is then automatic *)
+Theorem C05_lib_unaddressed_not_overwritten :
+  forall t0 t1, snd (mon_run mon_init (t0 ++ t1)) = true ->
+    let m0 := fst (mon_run mon_init t0) in
+    forall i w, possible m0 i = [Some w] -> mem_in (sr_id w) (m_cur m0) = false ->
+      forallb (op_avoids (sr_id w)) t1 = true -> forallb (meta_avoids i) t1 = true ->
+      not_overwritten (Some w) t1 = true.
+Proof. exact lib_unaddressed_proof. Qed.
+Print Assumptions C05_lib_unaddressed_not_overwritten.
+
+(* non-vacuity (Rawdb/CrashExamples.v): a realistic trace is accepted and leaves untouched flushed
+   regions; the behaviour before fix f53a575 is rejected *)
+Theorem C05_monitor_accepts_example : snd (mon_run mon_init good_trace) = true.
+Proof. exact good_trace_accepted. Qed.
+Print Assumptions C05_monitor_accepts_example.
+
+Theorem C05_monitor_rejects_prefix_behaviour :
+  (exists k, mon_first_bad mon_init bad_trace 0 = Some k /\ nth_error bad_trace (N.to_nat k) = Some CFlushed)
+  /\ (exists k, mon_first_bad mon_init bad_trace_data 0 = Some k
+               /\ match nth_error bad_trace_data (N.to_nat k) with Some (CData 0 100 _) => True | _ => False end)
+  /\ (exists k, mon_first_bad mon_init bad_trace_meta 0 = Some k
+               /\ match nth_error bad_trace_meta (N.to_nat k) with Some (CMeta 1 (Some _)) => True | _ => False end).
+Proof. exact (conj bad_trace_rejected_at_flush (conj bad_trace_rejected_at_data bad_trace_rejected_at_meta)). Qed.
+Print Assumptions C05_monitor_rejects_prefix_behaviour.
